@@ -4,8 +4,8 @@
  *     C04.py:pre_run, validated on 260 payloads): sample i = T[i][two payload bits].  Payload bits are symbolic, the
  *     REAL vbi3 raw decoder (init, add_services -> sampling_par checks -> bit_slicer set_params, decode) runs on a two
  *     line image.  Solver quantifies over ALL payloads (and all chroma / non-green bytes) of a fixed configuration.
- * (2) h_add_pattern / h_remove_pattern / h_add_decode: line-number / pattern-table part with symbolic sampling
- *     parameters and a stubbed slicer (solver over configurations).
+ * (2) h_lines / h_add_job / h_remove_job: line-number / pattern-table part with symbolic sampling parameters
+ *     (solver over configurations); composed with C05 decode_out (see the comment before h_add_job).
  * Real units: src/raw_decoder.c (included), src/bit_slicer.c, src/sampling_par.c, src/misc.c (linked). */
 #include "verif.h"
 #include "src/raw_decoder.c"
@@ -156,18 +156,23 @@ static void c04_in_sampling_par(vbi_sampling_par *sp)
  * KNOWN_LINES_NO_OVERLAP (known finding): when NONE of the sampled lines of the field is a line of the service,
  * lines_containing_data() keeps the whole field instead of nothing (raw_decoder.c:869-871 `continue`), so the
  * service is then searched - and may be reported - on lines where it is never transmitted. */
+static int c04_par_permits(const vbi_sampling_par *sp, const _vbi_service_par *par, unsigned f, unsigned line)
+{
+  if (par->first[f] == 0 || par->last[f] == 0) return 0;
+  if (line >= (unsigned) par->first[f] && line <= (unsigned) par->last[f]) return 1;
+#ifdef KNOWN_LINES_NO_OVERLAP
+  if (sp->count[f] > 0 && ((unsigned) par->first[f] > (unsigned) sp->start[f] + sp->count[f] - 1
+                           || (unsigned) par->last[f] < (unsigned) sp->start[f])) return 1;
+#endif
+  (void) sp;
+  return 0;
+}
+
 static int c04_line_permitted(const vbi_sampling_par *sp, vbi_service_set set, unsigned f, unsigned line)
 {
   const _vbi_service_par *par;
   for (par = _vbi_service_table; par->id; ++par)
-    if ((par->id & set) && par->first[f] != 0 && par->last[f] != 0) {
-      if (line >= (unsigned) par->first[f] && line <= (unsigned) par->last[f]) return 1;
-#ifdef KNOWN_LINES_NO_OVERLAP
-      if (sp->count[f] > 0 && ((unsigned) par->first[f] > (unsigned) sp->start[f] + sp->count[f] - 1
-                               || (unsigned) par->last[f] < (unsigned) sp->start[f])) return 1;
-#endif
-    }
-  (void) sp;
+    if ((par->id & set) && c04_par_permits(sp, par, f, line)) return 1;
   return 0;
 }
 
@@ -177,63 +182,12 @@ static unsigned c04_row_field(const vbi_sampling_par *sp, unsigned row, unsigned
   *idx = row; return 0;
 }
 
-/* SEQ: fresh decoder -> add_services(REQ, strict) -> decode with arbitrary slicer verdicts */
-V_HARNESS(h_add_decode)
-{
-  vbi_sampling_par sp;
-  vbi_service_set got;
-  int strict;
-  unsigned max_lines, n, k, r, w, j;
-  V_INIT();
-  c04_in_sampling_par(&sp);
-  strict = (int) (in_u8() % 3);
-  max_lines = in_u8();
-  in_bytes(st_verdict, sizeof st_verdict);
-  in_bytes(OUT, sizeof OUT);
-  st_fill = in_u8();
-  V_ASSUME(max_lines <= MAXOUT);
-  st_max_lines = max_lines;
-  memset(&RD, 0, sizeof RD);
-  V_ASSUME(_vbi3_raw_decoder_init(&RD, &sp));          /* = sampling parameters valid */
-
-  got = vbi3_raw_decoder_add_services(&RD, REQ, strict);
-
-  V_ASSERT((got & ~(vbi_service_set) (REQ)) == 0 && got == RD.services, "only_requested_services_admitted");
-  V_ASSERT(RD.n_jobs <= _VBI3_RAW_DECODER_MAX_JOBS, "job_table_bound");
-  V_ASSERT(RD.pattern != NULL && st_pat_inv(RD.pattern, LINES, RD.n_jobs), "pattern_invariant_established");
-  for (j = 0; j < _VBI3_RAW_DECODER_MAX_JOBS; j++)
-    if (j < RD.n_jobs) V_ASSERT(RD.jobs[j].id != 0 && (RD.jobs[j].id & ~got) == 0, "job_ids_are_admitted_services");
-  /* a job is looked for only on rows whose line number the service permits (when line numbers are known) */
-  for (r = 0; r < LINES; r++)
-    for (w = 0; w < _VBI3_RAW_DECODER_MAX_WAYS; w++) {
-      int v = RD.pattern[r * _VBI3_RAW_DECODER_MAX_WAYS + w];
-      if (v > 0) {
-        unsigned idx, f = c04_row_field(&sp, r, &idx);
-        V_ASSERT((unsigned) v <= RD.n_jobs, "way_is_a_job");
-        if (sp.synchronous && sp.start[f] != 0)
-          V_ASSERT(c04_line_permitted(&sp, RD.jobs[v - 1].id, f, sp.start[f] + idx), "job_only_on_permitted_lines");
-      }
-    }
-  if (got) V_REACH("admitted"); else V_REACH("not_admitted");
-
-  n = vbi3_raw_decoder_decode(&RD, OUT, max_lines, IMG);
-
-  V_ASSERT(n <= max_lines && n <= LINES, "never_more_than_max_lines");
-  V_ASSERT(got != 0 || n == 0, "nothing_without_services");
-  for (k = 0; k < MAXOUT; k++)
-    if (k < n) {
-      unsigned row = (unsigned) st_hit_row[k], idx, f = c04_row_field(&sp, row, &idx);
-      if (sp.interlaced) { f = row & 1; idx = row >> 1; }
-      V_ASSERT(OUT[k].id != 0 && (OUT[k].id & ~(vbi_service_set) (REQ)) == 0, "id_is_a_requested_service");
-      if (sp.synchronous && sp.start[f] != 0) {
-        V_ASSERT(OUT[k].line == (unsigned) sp.start[f] + idx, "itu_line_number");
-        V_ASSERT(c04_line_permitted(&sp, OUT[k].id, f, OUT[k].line), "line_inside_permitted_range_of_the_service");
-      } else V_ASSERT(OUT[k].line == 0, "unknown_line_reported_as_0");
-      if (k > 0 && OUT[k].line != 0 && OUT[k - 1].line != 0) V_ASSERT(OUT[k].line > OUT[k - 1].line, "lines_strictly_ascending");
-    }
-  if (n >= 2 || LINES < 2) V_REACH("two_records");
-  V_END();
-}
+/* (A SEQ obligation fresh decoder -> add_services -> decode with symbolic start lines gave no verdict: the row ranges
+ * become symbolic pointers into the pattern table and CBMC unrolls add_job_to_pattern's scans to the bound; 400 s cap.
+ * The statement is composed instead from h_lines (ranges = permitted lines, inside the table), h_add_job (job entered
+ * in exactly those rows, other rows untouched, invariant kept), C05 decode_out (only jobs of a row's pattern are tried
+ * on that row, jobs never migrate between rows, id/line of a record are those of the row and the job) and
+ * h_remove_job.) */
 
 /* INV-STEP: add_job_to_pattern on an arbitrary table satisfying the invariant (success and failure path) */
 static int8_t PATS[LINES * _VBI3_RAW_DECODER_MAX_WAYS];
@@ -303,7 +257,7 @@ V_HARNESS(h_lines)
       if (r >= base && r < base + cnt && sp.synchronous && sp.start[f] != 0) {
         unsigned line = sp.start[f] + (r - base);
         int in = r >= start[f] && r < start[f] + count[f];
-        int perm = c04_line_permitted(&sp, par->id, f, line);
+        int perm = c04_par_permits(&sp, par, f, line);
         V_ASSERT(in == perm, "rows_selected_iff_line_permitted");
       }
     }
